@@ -288,3 +288,180 @@ func TestC04Rapid(t *testing.T) {
 		})
 	})
 }
+
+// ---------------------------------------------------------------------------
+// two live iterators of ONE compiled expression, advanced in a drawn order
+
+var uC04Inter = harness.NewUnit("C04", "rapid-interleaved-iterators", ruleC04+" Second unit: two iterators obtained from the same *Expr (Select or Evaluate) on two (document, context) pairs are advanced in a drawn interleaving (the harness owns this schedule: it is a sequence of bits); each must yield exactly the sequence a freshly compiled expression yields alone. Non-trivial: both sequences non-empty and the schedule switches between the iterators at least once.")
+
+func init() {
+	harness.RegisterOracle("C04/interleaved", func(l *harness.Live) *harness.Failure {
+		_, f := oracleC04Inter(l)
+		return f
+	})
+}
+
+func intsParam(l *harness.Live, k string) []int {
+	b, _ := json.Marshal(l.Params[k])
+	var out []int
+	_ = json.Unmarshal(b, &out)
+	return out
+}
+
+func oracleC04Inter(l *harness.Live) (nontrivial bool, f *harness.Failure) {
+	shared, f := compileLive(l)
+	if f != nil {
+		return false, f
+	}
+	ctxs := intsParam(l, "ctxs")
+	useEval := intsParam(l, "use_evaluate")
+	sched := intsParam(l, "schedule")
+	docs := []*xdoc.Doc{l.Doc, l.Doc2}
+	if l.Doc2 == nil {
+		docs[1] = l.Doc
+	}
+	open := func(e *xpath.Expr, i int) (it *xpath.NodeIterator, err string) {
+		defer func() {
+			if r := recover(); r != nil {
+				err = fmt.Sprint("panic: ", r)
+			}
+		}()
+		d := docs[i]
+		nav := d.Nav(l.Flavour, d.Nodes[ctxs[i]%len(d.Nodes)], &xdoc.Budget{Limit: 3000000})
+		if useEval[i] == 1 {
+			v, ok := e.Evaluate(nav).(*xpath.NodeIterator)
+			if !ok {
+				return nil, "not a node iterator"
+			}
+			return v, ""
+		}
+		return e.Select(nav), ""
+	}
+	step := func(it *xpath.NodeIterator) (id int, more bool, err string) {
+		defer func() {
+			if r := recover(); r != nil {
+				err = fmt.Sprint("panic: ", r)
+			}
+		}()
+		if !it.MoveNext() {
+			return 0, false, ""
+		}
+		n := xdoc.NodeOf(it.Current())
+		if n == nil {
+			return -1, true, ""
+		}
+		return n.ID, true, ""
+	}
+	// expectations: each iterator alone, on a fresh compile
+	var want [2][]int
+	for i := 0; i < 2; i++ {
+		fresh, f := compileLive(l)
+		if f != nil {
+			return false, f
+		}
+		it, err := open(fresh, i)
+		if err != "" {
+			return false, nil // aborts alone as well: not a case for this relation
+		}
+		for len(want[i]) < 5000 {
+			id, more, err := step(it)
+			if err != "" {
+				return false, nil
+			}
+			if !more {
+				break
+			}
+			want[i] = append(want[i], id)
+		}
+	}
+	// the shared expression, two live iterators, drawn interleaving
+	var its [2]*xpath.NodeIterator
+	for i := 0; i < 2; i++ {
+		it, err := open(shared, i)
+		if err != "" {
+			return false, harness.Failf("iterator opens", err, "opening iterator %d on the shared expression", i)
+		}
+		its[i] = it
+	}
+	var got [2][]int
+	done := [2]bool{}
+	switches, last := 0, -1
+	for k := 0; !(done[0] && done[1]) && k < 20000; k++ {
+		i := 0
+		if len(sched) > 0 {
+			i = sched[k%len(sched)] & 1
+		}
+		if done[i] {
+			i = 1 - i
+		}
+		if last >= 0 && last != i {
+			switches++
+		}
+		last = i
+		id, more, err := step(its[i])
+		if err != "" {
+			return false, harness.Failf(fmt.Sprint(want[i]), err, "iterator %d of the shared expression aborted while interleaved with the other", i)
+		}
+		if !more {
+			done[i] = true
+			continue
+		}
+		got[i] = append(got[i], id)
+	}
+	for i := 0; i < 2; i++ {
+		if !harness.EqualInts(got[i], want[i]) && !(len(got[i]) == 0 && len(want[i]) == 0) {
+			return false, harness.Failf(describe(docs[i], want[i]), describe(docs[i], got[i]), "iterator %d (doc%d, ctx #%d) yields a different sequence when another iterator of the same compiled expression is advanced in between", i, i, ctxs[i]%len(docs[i].Nodes))
+		}
+	}
+	return len(want[0]) > 0 && len(want[1]) > 0 && switches > 0, nil
+}
+
+func TestC04Interleaved(t *testing.T) {
+	runRapid(t, uC04Inter, func(rt *rapid.T) {
+		doc := xgen.Doc(rt, xgen.DefaultDoc())
+		var doc2 *xdoc.Doc
+		switch rapid.IntRange(0, 2).Draw(rt, "doc2kind") {
+		case 0:
+			doc2 = doc
+		case 1:
+			doc2 = xgen.MutateDoc(rt, doc, xgen.DefaultDoc())
+		default:
+			doc2 = xgen.Doc(rt, xgen.DefaultDoc())
+		}
+		ctx := xgen.Context(rt, doc, 5)
+		g := xgen.NewG(rt, doc)
+		var e xast.Expr
+		for tries := 0; ; tries++ {
+			var ns bool
+			e, ns = anyExpr(g, rt, ctx)
+			if ns || tries > 3 {
+				if !ns {
+					e = g.AxisPath(ctx, xgen.PathOpts{MaxSteps: 3, AbsShare: 4, DSlash: 3})
+				}
+				break
+			}
+		}
+		if rapid.IntRange(0, 9).Draw(rt, "rev") == 0 {
+			e = &xast.Call{Name: "reverse", Args: []xast.Expr{e}}
+		}
+		ctxs := []int{ctx.ID, ctx.ID}
+		if rapid.Bool().Draw(rt, "otherctx") {
+			ctxs[1] = rapid.IntRange(0, 60).Draw(rt, "ctx2")
+		}
+		useEval := []int{rapid.IntRange(0, 1).Draw(rt, "ev0"), rapid.IntRange(0, 1).Draw(rt, "ev1")}
+		sched := rapid.SliceOfN(rapid.IntRange(0, 1), 1, 12).Draw(rt, "schedule")
+		l := &harness.Live{Property: "C04", Check: "C04/interleaved", Doc: doc, Doc2: doc2, Ctx: ctx, AST: e, Expr: xast.Render(e), Flavour: flavourOf(rt),
+			Params: map[string]interface{}{"ctxs": ctxs, "use_evaluate": useEval, "schedule": sched}}
+		if _, err, _ := harness.Compile(l.Expr, nil, false); err != nil {
+			uC04Inter.Skip()
+			return
+		}
+		nt, f := oracleC04Inter(l)
+		if f != nil {
+			harness.Report(rt, uC04Inter, l, f)
+		}
+		uC04Inter.Case(harness.Mix(doc.Hash(), doc2.Hash(), harness.Hash64(l.Expr, fmt.Sprint(ctxs, useEval, sched))), nt, shapeLabels(e), func() interface{} {
+			return map[string]interface{}{"expr": l.Expr, "doc": doc.String(), "doc2": doc2.String(), "ctxs": ctxs, "use_evaluate": useEval, "schedule": sched}
+		})
+	})
+}
